@@ -32,11 +32,82 @@ def run(ctx):
         recv = scalar_overload(prog, cls, 'Receive')
         send = scalar_overload(prog, cls, 'Send')
         results[cls] = (r13a(ctx, cls, recv), r13b(ctx, cls, send, recv), r13c(ctx, cls, recv), r13d(ctx, cls, recv), r13e(ctx, cls, send, recv),
-                        r13g(ctx, cls, recv), r13h(ctx, cls, send))
+                        r13g(ctx, cls, recv), r13h(ctx, cls, send), r13i(ctx, cls, recv))
     # R13f sibling agreement: both implementations satisfy the same set of rules
     ok = results[CLASSES[0]] == results[CLASSES[1]]
     (ctx.ok if ok else ctx.bad)('R13f', 'R13f:siblings', 'select and nonblock channel agree on every rule verdict' if ok else
                                 'the two channel implementations differ in their gate / framing / pairing structure: %s' % (results,), nec=False)
+
+
+def r13i(ctx, cls, f):
+    """after a frame has been consumed the rest of the buffer stays marked "scan me" unless it cannot hold a complete frame:
+    buf_flag is cleared there only under a condition on the remainder wnum that implies wnum < maclen + 2 (one digit, the
+    delimiter, the tag).  The condition is read off the must-facts of the clearing write and evaluated over wnum = 0..200 and
+    maclen in {0, 16, 20, 32, 64}; a remainder that is exactly one minimal frame must not be put to sleep -- it would be
+    parsed only when further octets arrive on that link, i.e. never if the sender has nothing more to say."""
+    a = ctx.analysis(f)
+    T = a.T
+    ml = T.mk('this', 'maclen')
+    n = 0
+    bad = None
+    for nid, ev in a.all_events('write'):
+        if not (ev[1][0] == 'e' and ev[1][1] == ('m', 'buf_flag')) or T.node(ev[2]) != ('bool', False):
+            continue
+        st = a.instate[nid]
+        w = [v for l, v in st.env.items() if l[0] == 'v' and l[-1] == 'wnum']
+        if not w:
+            continue            # the clearing at "no delimiter found": nothing was consumed
+        wt = w[0]
+        n += 1
+
+        def val(t, wv, mv):
+            if t == wt:
+                return wv
+            if t == ml:
+                return mv
+            nn = T.node(t)
+            if nn[0] == 'int':
+                return nn[1]
+            if nn[0] == 'op' and nn[1] in ('+', '-'):
+                x, y = val(nn[2], wv, mv), val(nn[3], wv, mv)
+                if x is None or y is None:
+                    return None
+                return x + y if nn[1] == '+' else x - y
+            if nn[0] in ('add',) and len(nn) == 3:
+                x, y = val(nn[1], wv, mv), val(nn[2], wv, mv)
+                return None if x is None or y is None else x + y
+            return None
+        conds = []
+        for fa in st.facts:
+            fn_ = T.node(fa)
+            if fn_[0] == 'rel' and (T.contains(fa, lambda z: z == T.node(wt)) or fn_[2] == wt or fn_[3] == wt):
+                conds.append(fn_)
+        for mv in (0, 16, 20, 32, 64):
+            for wv in range(0, 201):
+                holds = True
+                for fn_ in conds:
+                    x, y = val(fn_[2], wv, mv), val(fn_[3], wv, mv)
+                    if x is None or y is None:
+                        continue
+                    if not {'<': x < y, '<=': x <= y, '==': x == y, '!=': x != y}[fn_[1]]:
+                        holds = False
+                if holds and not conds:
+                    holds = True
+                if holds and wv >= mv + 2:
+                    bad = (wv, mv, ev[3])
+                    break
+            if bad:
+                break
+    key = 'R13i:%s:rescan' % cls
+    if n == 0:
+        ctx.note('R13i', key, 'no clearing of the rescan flag after a consumed frame found; not evaluated', f)
+    elif bad:
+        ctx.bad('R13i', key, 'after a frame was consumed the rescan flag is cleared (line %d) although the remainder can hold a complete frame: e.g. %d octets left with a '
+                '%d-octet tag -- that frame is parsed only when more octets arrive on the link' % (bad[2], bad[0], bad[1]), f, line=bad[2])
+    else:
+        ctx.ok('R13i', key, 'the rescan flag is cleared after a consumed frame only when fewer than maclen + 2 octets remain', f)
+    ctx.floor('R13i:%s' % cls, n, 1)
+    return bad is None
 
 
 def verify_branches(a):
